@@ -53,6 +53,15 @@ def main():
     if args.replay:
         with open(args.replay) as f:
             rec = json.load(f)
+        if 'input' not in rec:
+            # a record of kind 'unproved': there is no failing input, only obligations that no longer check
+            print('this record names no failing input; obligations that no longer checked when it was written:')
+            for b in rec.get('no_longer_checks', []):
+                print('  ' + str(b)[:300])
+            b = common.build_all(clean=False)
+            obl = common.obligations_for(mod.TOP, b)
+            print('now: %d/%d obligations discharged%s' % (obl['discharged'], obl['total'], '' if not obl['broken'] else '; still broken: %s' % obl['broken'][:5]))
+            sys.exit(1 if obl['broken'] else 0)
         sys.exit(mod.replay(rec))
 
     t0 = time.time()
